@@ -150,12 +150,64 @@ def k_graph(ctx, seqs, k, engine, mode, method, labels="list", max_returns=None)
                 return
 
 
+def k_graph_synthetic(ctx, n_comp, size, isolated, method, np_seed):
+    """A long neighbour list of the shape the search functions return with max_returns (each neighbour pair in one orientation only,
+    some in both): n_comp complete groups of `size` nodes plus isolated nodes; more than 2^16 entries."""
+    import numpy as np
+    import pyrepseq as prs
+    rng = random.Random(np_seed)
+    n = n_comp * size + isolated
+    order = list(range(n))
+    rng.shuffle(order)
+    comps = [order[c * size:(c + 1) * size] for c in range(n_comp)]
+    trip = []
+    for comp in comps:
+        for a in range(len(comp)):
+            for b in range(a + 1, len(comp)):
+                i, j = comp[a], comp[b]
+                r = rng.random()
+                if r < 0.45:
+                    trip.append((i, j, 1))
+                elif r < 0.9:
+                    trip.append((j, i, 1))
+                else:
+                    trip += [(i, j, 1), (j, i, 1)]
+    rng.shuffle(trip)
+    ctx.count("graph_synthetic_cases")
+    if len(trip) > 65536:
+        ctx.count("graph_lists_over_65536_entries")
+    ctx.nontriv(["gs", n_comp, size, isolated, method, np_seed])
+    ctx.sample("graph_synthetic", {"nodes": n, "entries": len(trip), "components": n_comp, "method": method})
+    names = [f"n{i}" for i in range(n)]
+    adj = np.array(trip) if np_seed % 2 else trip
+    out = ctx.call(prs.graph_clustering, adj, names, clustering=method)
+    if not out.ok:
+        ctx.violation(f"graph_clustering:{method}:long-list:raised", "graph_clustering raised on a long neighbour list", out.describe(), None)
+        return
+    df = out.value
+    ncol = "node" if "node" in df.columns else df.columns[0]
+    ccol = "cluster" if "cluster" in df.columns else df.columns[-1]
+    members = collections.defaultdict(set)
+    for name, c in zip(df[ncol].tolist(), df[ccol].tolist()):
+        members[c].add(int(str(name)[1:]))
+    got = {frozenset(v) for v in members.values()}
+    want = {frozenset(c) for c in comps}
+    if method == "cc":
+        if got != want:
+            ctx.violation("graph_clustering:cc:long-list:wrong-components", f"{len(got)} clusters returned for {len(want)} multi-member components of a {len(trip)}-entry neighbour list",
+                          len(got), len(want))
+    else:
+        comp_of = {i: k for k, c in enumerate(comps) for i in c}
+        if any(len({comp_of.get(i, -1 - i) for i in v}) != 1 for v in got):
+            ctx.violation(f"graph_clustering:{method}:long-list:crosses-components", "a community contains nodes of different connected components", None, None)
+
+
 def _condensed(items, dist):
     m = len(items)
     return [float(dist(items[i], items[j])) for i in range(m) for j in range(i + 1, m)]
 
 
-def k_hier(ctx, seqs, method, criterion, t, container=None, optimal=True):
+def k_hier(ctx, seqs, method, criterion, t, container=None, optimal=True, empty_linkage_kws=False):
     import numpy as np
     import scipy.cluster.hierarchy as hc
     import pyrepseq as prs
@@ -165,6 +217,13 @@ def k_hier(ctx, seqs, method, criterion, t, container=None, optimal=True):
     if container and container.startswith("series") and container != "series_default":
         ctx.count("hier_nondefault_index")
     d = np.array(_condensed(seqs, O.lev))
+    if empty_linkage_kws:
+        ctx.count("hier_empty_linkage_kws")
+        wl = hc.linkage(d)
+        wc = hc.fcluster(wl, t=t, criterion=criterion)
+        out = ctx.call(prs.hierarchical_clustering, list(seqs), linkage_kws={}, cluster_kws=dict(t=t, criterion=criterion))
+        _cmp_hier(ctx, out, wl, wc, "strings:empty-linkage-kws", len(seqs))
+        return
     wl = hc.linkage(d, method=method, optimal_ordering=optimal)
     wc = hc.fcluster(wl, t=t, criterion=criterion)
     if len(set(wc.tolist())) < len(seqs):
@@ -302,7 +361,7 @@ def k_identity(ctx, seqs, t):
                       {"hierarchical": sorted(sorted(x) for x in hp), "graph": sorted(sorted(x) for x in gp)}, sorted(sorted(x) for x in op))
 
 
-KINDS = {"graph": k_graph, "hier": k_hier, "hier_table": k_hier_table, "identity": k_identity, "hier_metrics": k_hier_metrics}
+KINDS = {"graph": k_graph, "hier": k_hier, "hier_table": k_hier_table, "identity": k_identity, "hier_metrics": k_hier_metrics, "graph_synthetic": k_graph_synthetic}
 METHODS = ["cc", "fastgreedy", "multilevel", "leiden"]
 
 
@@ -338,7 +397,14 @@ def generate(tier, seed):
         if eng == "kdtree" and i % 2 == 0:
             p["max_returns"] = 1 + (i // 6) % 2
         yield "graph", p, i < 50
+    yield "graph_synthetic", {"n_comp": 120, "size": 36, "isolated": 50, "method": "cc", "np_seed": 15500 + seed}, True
+    if thorough:
+        yield "graph_synthetic", {"n_comp": 300, "size": 40, "isolated": 200, "method": "cc", "np_seed": 15501 + seed}, True
+        yield "graph_synthetic", {"n_comp": 150, "size": 30, "isolated": 10, "method": "leiden", "np_seed": 15502 + seed}, True
     wit = ["CASSF", "CASF", "CAWF", "CASSLF", "CASSF", "CDDDDDF", "CAW", "CDDDDF"]
+    # option dictionaries given but empty: SciPy's own defaults apply (single linkage)
+    for t in (1, 2):
+        yield "hier", {"seqs": wit, "method": "single", "criterion": "distance", "t": t, "empty_linkage_kws": True}, True
     for method in ("single", "complete", "average", "weighted"):
         for crit, ts in (("distance", [0, 0.5, 1, 2, 3, 4] if thorough else [0, 1, 3]), ("maxclust", [1, 2, 3, 4] if thorough else [2, 3])):
             for t in ts:
@@ -368,6 +434,11 @@ def generate(tier, seed):
         yield "hier_metrics", {"seqs": seqs, "weights": ws, "method": ["average", "single", "complete"][i % 3], "t": rng.choice([1, 2, 4])}, i < 4
         rows = [[rng.choice(cells0), rng.choice(cells0)] for _ in range(rng.randint(3, 9))]
         yield "hier_metrics", {"seqs": None, "rows": rows, "weights": [[1, 1], [3, 1], [1, 1], [1, 2]], "method": "average", "t": rng.choice([2, 4])}, i < 3
+    # paired tables whose chains are each at most 255 letters while alpha + beta distances exceed 255
+    for j in range(4 if thorough else 2):
+        rows = [[G.rand_string(rng, ["ACDEF", "GHIKL", "MNPQR"][r % 3], 135, 200), G.rand_string(rng, ["STVWY", "ACDEF", "GHIKL"][r % 3], 135, 200)] for r in range(5)]
+        rows[1] = [G.mutate(rng, rows[0][0], "ACDEF", 4), G.mutate(rng, rows[0][1], "STVWY", 5)]
+        yield "hier_table", {"rows": rows, "cols": "AB", "method": ["average", "single"][j % 2], "t": [6, 40][j % 2], "index": [None, "string"][j % 2]}, True
     cells = ["CAF", "CAAF", "CAW", "CF", "CASF", "CAAAF"]
     for i in range(300 * TS if thorough else 24):
         rows = [[rng.choice(cells), rng.choice(cells)] for _ in range(rng.randint(3, 14))]
